@@ -61,6 +61,20 @@ fn dims(ctx: &Ctx, quick: usize, thorough: usize) -> usize {
     }
 }
 
+/// Larger shapes sampled in addition to the exhaustive small scope (size-threshold dependent paths).
+pub fn big_shapes(ctx: &Ctx, salt: u64) -> Vec<(usize, usize)> {
+    if ctx.scale != Scale::Native {
+        return if ctx.scale == Scale::Vg { vec![(9, 5), (3, 17)] } else { vec![(9, 2)] };
+    }
+    let mut v = vec![(7, 7), (8, 3), (3, 8), (9, 16), (16, 9), (17, 17), (1, 33), (33, 1), (32, 2), (2, 32), (31, 5), (40, 7), (13, 40), (64, 3), (5, 65), (32, 32), (40, 30), (130, 9), (3, 400)];
+    let mut rng = Rng::from_parts(ctx.seed, salt, 4242);
+    let extra = if ctx.tier == Tier::Thorough { 40 } else { 6 };
+    for _ in 0..extra {
+        v.push((rng.range(1, 48), rng.range(1, 48)));
+    }
+    v
+}
+
 fn key_of(c: usize, r: usize) -> u32 {
     ((c * 7 + r * 3) % 5) as u32
 }
@@ -68,14 +82,22 @@ fn key_of(c: usize, r: usize) -> u32 {
 // ================================================================================================
 // C06
 
-fn c06_case<T: Elem>(ctx: &mut Ctx, shape: (usize, usize), cap: CapClass, axis: Axis) {
+fn c06_case<T: Elem>(ctx: &mut Ctx, shape: (usize, usize), cap: CapClass, axis: Axis, big: bool) {
     let (cols, rows) = shape;
     let dim = if axis == Axis::Row { rows } else { cols };
     let line_len = if axis == Axis::Row { cols } else { rows };
     let n_max = dims(ctx, 6, 9);
-    let mut idxs: Vec<usize> = (0..=dim + 1).collect();
+    let mut idxs: Vec<usize> = if big { vec![0, 1, dim / 2, dim.saturating_sub(1), dim, dim + 1] } else { (0..=dim + 1).collect() };
     idxs.push(usize::MAX);
-    let lens: Vec<usize> = if cols == 0 { (0..=n_max + 1).collect() } else { (0..=line_len + 1).collect() };
+    idxs.sort_unstable();
+    idxs.dedup();
+    let lens: Vec<usize> = if cols == 0 {
+        (0..=n_max + 1).collect()
+    } else if big {
+        vec![0, line_len - 1, line_len, line_len + 1]
+    } else {
+        (0..=line_len + 1).collect()
+    };
     for &idx in &idxs {
         for &len in &lens {
             for push in [false, true] {
@@ -155,9 +177,29 @@ pub fn run_c06(ctx: &mut Ctx) {
                     let tn = ["Kv", "Tok", "Zst"][ty];
                     if ctx.case(|| format!("C06 shape={}x{} cap={:?} axis={:?} elem={}", shape.0, shape.1, cap, axis, tn)) {
                         match ty {
-                            0 => c06_case::<Kv>(ctx, shape, cap, axis),
-                            1 => c06_case::<Tok>(ctx, shape, cap, axis),
-                            _ => c06_case::<Zst>(ctx, shape, cap, axis),
+                            0 => c06_case::<Kv>(ctx, shape, cap, axis, false),
+                            1 => c06_case::<Tok>(ctx, shape, cap, axis, false),
+                            _ => c06_case::<Zst>(ctx, shape, cap, axis, false),
+                        }
+                    }
+                    if ctx.done() {
+                        return;
+                    }
+                }
+            }
+        }
+    }
+    // larger shapes, sampled indices and lengths
+    for shape in big_shapes(ctx, 6) {
+        for (k, cap) in [CapClass::Exact, CapClass::Spare].into_iter().enumerate() {
+            for axis in [Axis::Row, Axis::Col] {
+                let tys: Vec<usize> = if shape.0 * shape.1 >= 1000 { vec![0, 1, 2] } else { vec![(shape.0 + shape.1 + k) % 3] };
+                for ty in tys {
+                    if ctx.case(|| format!("C06 big shape={}x{} cap={:?} axis={:?} elem={}", shape.0, shape.1, cap, axis, ["Kv", "Tok", "Zst"][ty])) {
+                        match ty {
+                            0 => c06_case::<Kv>(ctx, shape, cap, axis, true),
+                            1 => c06_case::<Tok>(ctx, shape, cap, axis, true),
+                            _ => c06_case::<Zst>(ctx, shape, cap, axis, true),
                         }
                     }
                     if ctx.done() {
@@ -178,13 +220,17 @@ pub fn run_c06(ctx: &mut Ctx) {
 pub fn drive_drain<T: Elem, D: Iterator<Item = T> + DoubleEndedIterator + ExactSizeIterator>(
     ctx: &mut Ctx,
     op: &str,
-    d: &mut D,
+    mut d: D,
     line: &[Mc],
     front: usize,
     back: usize,
     inter: usize,
     held: &mut Vec<T>,
 ) -> bool {
+    // `inter % 4`: 0 front-first, 1 back-first, 2 alternating, 3 one nth(front-1) / nth_back(back-1) jump
+    // `inter / 4`: how the rest is consumed: 0 drop, 1 count, 2 last, 3 fold, 4 rev-collect, 5 skip(1).step_by(2)
+    let mode = inter % 4;
+    let finish = (inter / 4) % 6;
     let mut ideal: VecDeque<Mc> = line.iter().copied().collect();
     let mut f = front;
     let mut b = back;
@@ -198,9 +244,55 @@ pub fn drive_drain<T: Elem, D: Iterator<Item = T> + DoubleEndedIterator + ExactS
             *ok = false;
         }
     };
-    probe(ctx, d, &ideal, &mut ok);
+    let mut judge = |ctx: &mut Ctx, got: Option<T>, exp: Option<Mc>, how: &str, held: &mut Vec<T>, ok: &mut bool| {
+        match (got, exp) {
+            (Some(x), Some(m)) => {
+                if !T::IS_ZST && mc(&x) != m {
+                    ctx.violation(op, "drain:item", format!("{} yielded {:?} expected {:?}", how, mc(&x), m));
+                    *ok = false;
+                }
+                held.push(x);
+            }
+            (None, None) => {}
+            (g, e) => {
+                ctx.violation(op, "drain:item", format!("{} yielded {:?} expected {:?}", how, g.as_ref().map(mc), e));
+                if let Some(x) = g {
+                    held.push(x);
+                }
+                *ok = false;
+            }
+        }
+        ctx.count("drain_items", 1);
+    };
+    probe(ctx, &d, &ideal, &mut ok);
+    if mode == 3 {
+        if f > 0 {
+            let got = d.nth(f - 1);
+            for _ in 0..f - 1 {
+                ideal.pop_front();
+            }
+            let exp = ideal.pop_front();
+            judge(ctx, got, exp, "nth", held, &mut ok);
+            if ok {
+                probe(ctx, &d, &ideal, &mut ok);
+            }
+        }
+        if ok && b > 0 {
+            let got = d.nth_back(b - 1);
+            for _ in 0..b - 1 {
+                ideal.pop_back();
+            }
+            let exp = ideal.pop_back();
+            judge(ctx, got, exp, "nth_back", held, &mut ok);
+            if ok {
+                probe(ctx, &d, &ideal, &mut ok);
+            }
+        }
+        f = 0;
+        b = 0;
+    }
     while ok && (f > 0 || b > 0) {
-        let take_front = match inter {
+        let take_front = match mode {
             0 => f > 0,
             1 => b == 0,
             _ => {
@@ -219,32 +311,62 @@ pub fn drive_drain<T: Elem, D: Iterator<Item = T> + DoubleEndedIterator + ExactS
             b -= 1;
             (d.next_back(), ideal.pop_back())
         };
-        match (got, exp) {
-            (Some(x), Some(m)) => {
-                if !T::IS_ZST && mc(&x) != m {
-                    ctx.violation(op, "drain:item", format!("yielded {:?} expected {:?} (front={})", mc(&x), m, take_front));
-                    ok = false;
-                }
-                held.push(x);
-            }
-            (None, None) => {}
-            (g, e) => {
-                ctx.violation(op, "drain:item", format!("yielded {:?} expected {:?}", g.as_ref().map(mc), e));
-                if let Some(x) = g {
-                    held.push(x);
-                }
-                ok = false;
-            }
-        }
-        ctx.count("drain_items", 1);
+        judge(ctx, got, exp, if take_front { "next" } else { "next_back" }, held, &mut ok);
         if ok {
-            probe(ctx, d, &ideal, &mut ok);
+            probe(ctx, &d, &ideal, &mut ok);
         }
     }
-    ok
+    if !ok {
+        return false;
+    }
+    // consume / drop the rest
+    let rest: Vec<Mc> = ideal.iter().copied().collect();
+    let want: Vec<Mc>;
+    let got: Vec<T>;
+    match finish {
+        0 => {
+            drop(d);
+            return true;
+        }
+        1 => {
+            let n = d.count();
+            if n != rest.len() {
+                ctx.violation(op, "drain:count", format!("count()={} ideal {}", n, rest.len()));
+                return false;
+            }
+            return true;
+        }
+        2 => {
+            got = d.last().into_iter().collect();
+            want = rest.last().copied().into_iter().collect();
+        }
+        3 => {
+            got = d.fold(vec![], |mut acc, x| {
+                acc.push(x);
+                acc
+            });
+            want = rest.clone();
+        }
+        4 => {
+            got = d.rev().collect();
+            want = rest.iter().rev().copied().collect();
+        }
+        _ => {
+            got = d.skip(1).step_by(2).collect();
+            want = rest.iter().skip(1).step_by(2).copied().collect();
+        }
+    }
+    let gm: Vec<Mc> = got.iter().map(mc).collect();
+    held.extend(got);
+    if gm.len() != want.len() || (!T::IS_ZST && gm != want) {
+        ctx.violation(op, "drain:rest", format!("finish mode {} yielded {:?} expected {:?}", finish, gm, want));
+        return false;
+    }
+    ctx.count("drain_items", want.len() as u64);
+    true
 }
 
-fn c07_case<T: Elem>(ctx: &mut Ctx, shape: (usize, usize), axis: Axis, cap: CapClass) {
+fn c07_case<T: Elem>(ctx: &mut Ctx, shape: (usize, usize), axis: Axis, cap: CapClass, big: bool) {
     let (cols, rows) = shape;
     let dim = if axis == Axis::Row { rows } else { cols };
     let line_len = if axis == Axis::Row { cols } else { rows };
@@ -289,17 +411,45 @@ fn c07_case<T: Elem>(ctx: &mut Ctx, shape: (usize, usize), axis: Axis, cap: CapC
         ctx.count("calls", 1);
         return;
     }
-    for idx in 0..dim {
+    let idx_list: Vec<usize> = if big {
+        let mut v = vec![0, 1.min(dim - 1), dim / 2, dim - 1];
+        v.sort_unstable();
+        v.dedup();
+        v
+    } else {
+        (0..dim).collect()
+    };
+    for idx in idx_list {
         for pop in [false, true] {
             if pop && idx != dim - 1 {
                 continue;
             }
             for front in 0..=line_len {
                 for back in 0..=(line_len - front) {
-                    for inter in 0..3 {
-                        if inter > 0 && (front == 0 || back == 0) {
-                            continue; // interleavings coincide
+                    if big {
+                        // sampled splits: nothing, one from either end, everything, a middle cut
+                        let keep = matches!((front, back), (0, 0) | (1, 0) | (0, 1) | (2, 3))
+                            || (front == line_len && back == 0)
+                            || (front == 0 && back == line_len)
+                            || (front == line_len / 2 && back == line_len - front)
+                            || (front == line_len / 2 && back == 1);
+                        if !keep {
+                            continue;
                         }
+                    }
+                    // interleaving x finishing mode codes (see drive_drain)
+                    let mut codes: Vec<usize> = vec![0];
+                    if front > 0 && back > 0 {
+                        codes.extend([1, 2]);
+                    }
+                    if front > 1 || back > 1 {
+                        codes.push(3);
+                    }
+                    for fin in 1..6 {
+                        let m = (front + back + fin) % 4;
+                        codes.push(fin * 4 + if (m == 1 || m == 2) && (front == 0 || back == 0) { 0 } else { m });
+                    }
+                    for inter in codes {
                         ledger_reset();
                         kv_reset();
                         let (mut a, mut g) = build::<T>(cols, rows, &key_of);
@@ -316,22 +466,22 @@ fn c07_case<T: Elem>(ctx: &mut Ctx, shape: (usize, usize), axis: Axis, cap: CapC
                             let mut ok = true;
                             match (axis, pop) {
                                 (Axis::Row, false) => {
-                                    let mut d = a.remove_row(idx);
-                                    ok &= drive_drain(ctx, opname, &mut d, &line, front, back, inter, &mut held);
+                                    let d = a.remove_row(idx);
+                                    ok &= drive_drain(ctx, opname, d, &line, front, back, inter, &mut held);
                                 }
                                 (Axis::Row, true) => match a.pop_row() {
-                                    Some(mut d) => ok &= drive_drain(ctx, opname, &mut d, &line, front, back, inter, &mut held),
+                                    Some(d) => ok &= drive_drain(ctx, opname, d, &line, front, back, inter, &mut held),
                                     None => {
                                         ctx.violation(opname, "pop-none-on-nonempty", String::new());
                                         ok = false
                                     }
                                 },
                                 (Axis::Col, false) => {
-                                    let mut d = a.remove_col(idx);
-                                    ok &= drive_drain(ctx, opname, &mut d, &line, front, back, inter, &mut held);
+                                    let d = a.remove_col(idx);
+                                    ok &= drive_drain(ctx, opname, d, &line, front, back, inter, &mut held);
                                 }
                                 (Axis::Col, true) => match a.pop_col() {
-                                    Some(mut d) => ok &= drive_drain(ctx, opname, &mut d, &line, front, back, inter, &mut held),
+                                    Some(d) => ok &= drive_drain(ctx, opname, d, &line, front, back, inter, &mut held),
                                     None => {
                                         ctx.violation(opname, "pop-none-on-nonempty", String::new());
                                         ok = false
@@ -385,14 +535,31 @@ pub fn run_c07(ctx: &mut Ctx) {
                     let tn = ["Kv", "Tok", "Zst"][ty];
                     if ctx.case(|| format!("C07 shape={}x{} axis={:?} cap={:?} elem={}", shape.0, shape.1, axis, cap, tn)) {
                         match ty {
-                            0 => c07_case::<Kv>(ctx, shape, axis, cap),
-                            1 => c07_case::<Tok>(ctx, shape, axis, cap),
-                            _ => c07_case::<Zst>(ctx, shape, axis, cap),
+                            0 => c07_case::<Kv>(ctx, shape, axis, cap, false),
+                            1 => c07_case::<Tok>(ctx, shape, axis, cap, false),
+                            _ => c07_case::<Zst>(ctx, shape, axis, cap, false),
                         }
                     }
                     if ctx.done() {
                         return;
                     }
+                }
+            }
+        }
+    }
+    for shape in big_shapes(ctx, 7) {
+        for axis in [Axis::Row, Axis::Col] {
+            for ty in 0..3 {
+                let cap = if (shape.0 + ty) % 2 == 0 { CapClass::Exact } else { CapClass::Spare };
+                if ctx.case(|| format!("C07 big shape={}x{} axis={:?} cap={:?} elem={}", shape.0, shape.1, axis, cap, ["Kv", "Tok", "Zst"][ty])) {
+                    match ty {
+                        0 => c07_case::<Kv>(ctx, shape, axis, cap, true),
+                        1 => c07_case::<Tok>(ctx, shape, axis, cap, true),
+                        _ => c07_case::<Zst>(ctx, shape, axis, cap, true),
+                    }
+                }
+                if ctx.done() {
+                    return;
                 }
             }
         }
